@@ -611,7 +611,13 @@ func (m *StateMachine) sendInitialActionSet(ctx context.Context) (
 	// We will simply assume that the commit wait elapsed while we were offline.
 	// At worst, we propose our block early,
 	// but the other validators in the network need to be resilient to that anyway.
-	if _, _, _, _, err := m.fStore.LoadFinalizationByHeight(ctx, h); err == nil {
+	//
+	// The stored height is only updated when a round or height is entered after start-up,
+	// so after repeated restarts more than one finalized height can lie ahead of it.
+	for {
+		if _, _, _, _, err := m.fStore.LoadFinalizationByHeight(ctx, h); err != nil {
+			break
+		}
 		h++
 		r = 0
 
